@@ -70,6 +70,7 @@ type FuncContract struct {
 	Recover  bool  // must contain a deferred recover (C18 structural)
 	Params   []string // assumed contracts: parameter names
 	Clock    bool     // result is a read of the monotone ghost clock
+	Unroll   map[int]int // loop ordinal -> unrolling bound (with unwinding assertion)
 }
 
 type PredDef struct {
@@ -235,6 +236,18 @@ func (cs *Contracts) LoadContractFile(path, pkg string, repoStyle bool) error {
 		case "loop":
 			// loop N invariant E
 			f := strings.SplitN(rest, " ", 3)
+			if len(f) == 3 && f[1] == "unroll" {
+				n, err1 := strconv.Atoi(f[0])
+				k, err2 := strconv.Atoi(strings.TrimSpace(f[2]))
+				if err1 != nil || err2 != nil {
+					return perr(fmt.Errorf("expected: loop N unroll K"))
+				}
+				if cur.Unroll == nil {
+					cur.Unroll = map[int]int{}
+				}
+				cur.Unroll[n] = k
+				continue
+			}
 			if len(f) < 3 || f[1] != "invariant" {
 				return perr(fmt.Errorf("expected: loop N invariant E"))
 			}
